@@ -54,6 +54,8 @@ def _case(draw, tier):
         "rename": draw(st.sampled_from([None, "swap_inputs", "swap_outputs", "both"])), "deep": prob(draw, 0.25),
         # shape of the mutated broadcast value (an immutable container may still hold a mutable), renaming the cloned input,
         # and whether map_over is configured before or after the renames
+        # the inner graph's own default selection: a subset of its outputs in an order that is NOT their declaration order
+        "inner_select": draw(st.permutations(["key", "e", "o"]))[: draw(st.integers(1, 3))] if prob(draw, 0.3) else None,
         "cfg_shape": draw(st.sampled_from(["list", "list", "tuple_list", "dict"])), "rename_cfg": draw(st.booleans()), "map_after_renames": prob(draw, 0.3),
     }
 
@@ -73,7 +75,10 @@ def inner_spec(case):
     if case["mut"]:
         expr = {"list": "tuple(cfg)", "tuple_list": "tuple(cfg[0])", "dict": "tuple(cfg['k'])"}[case.get("cfg_shape", "list")]
         nodes.append({"k": "func", "name": "mut", "params": ["cfg", "key"], "defaults": {}, "outs": ["m"], "expr": expr})
-    return {"nodes": nodes, "name": "inner"}
+    spec = {"nodes": nodes, "name": "inner"}
+    if case.get("inner_select"):
+        spec["select"] = list(case["inner_select"]) + (["m"] if case["mut"] else [])
+    return spec
 
 
 def _cfg0(case):
@@ -214,13 +219,16 @@ def check_case(case, ev):
         outs = {"key": "key", "e": "e", "o": "o"}
         if case["mut"]:
             outs["m"] = "m"
+        if gspec.get("select"):
+            outs = {k2: v2 for k2, v2 in outs.items() if k2 in gspec["select"]}
+
         inmap = {}
         renames = []
         if case["rename"] in ("swap_inputs", "both"):
             a, b = order[0], "bc"
             renames.append({"kind": "inputs", "map": {a: b, b: a}})  # swap a mapped and a broadcast input after map_over
             inmap = {a: b, b: a}
-        if case["rename"] in ("swap_outputs", "both"):
+        if case["rename"] in ("swap_outputs", "both") and "e" in outs and "o" in outs:
             renames.append({"kind": "outputs", "map": {"e": "o", "o": "e"}})
             outs.update({"e": "o", "o": "e"})
         if case["mut"] and case.get("rename_cfg"):
@@ -292,4 +300,6 @@ def check_case(case, ev):
         labels.add("empty")
     if case["rename"]:
         labels.add("renamed_wrapper")
+    if case.get("inner_select"):
+        labels.add("inner_graph_select_reordered")
     ev.case(case, nontrivial, sorted(labels))
